@@ -185,7 +185,7 @@ V = "varied"
 CONSTRUCTORS = {
     "Scenario.__init__": {"dt": V, "scenario_id": V, "author": "fixed text", "tags": V, "affiliation": "fixed text", "source": "fixed text", "location": "None / given"},
     "ScenarioID.__init__": {"cooperative": V, "country_id": V, "map_name": V, "map_id": V, "configuration_id": V, "obstacle_behavior": V, "prediction_id": V,
-                            "scenario_version": "default (the writers support one version)"},
+                            "scenario_version": "default / 2018b / 2020a given (bucket scenario-version:2018b; the writers write the current format whatever the id says)"},
     "Location.__init__": {"geo_name_id": V, "gps_latitude": V, "gps_longitude": V, "geo_transformation": "None / given", "environment": "None / given"},
     "Environment.__init__": {"time": V, "time_of_day": V, "weather": V, "underground": V},
     "GeoTransformation.__init__": {"geo_reference": V, "x_translation": V, "y_translation": V, "z_rotation": V, "scaling": V},
@@ -252,6 +252,12 @@ CONSTRUCTORS = {
     "LaneletNetwork.create_from_lanelet_network": {"lanelet_network": V, "shape_input": "None / given", "exclude_lanelet_types": "None / given", "cleanup_ids": V},
     "LaneletNetwork.create_from_lanelet_list": {"lanelets": V, "cleanup_ids": V},
     "Lanelet.get_obstacles": {"obstacles": "static / static + dynamic", "time_step": V},
+    "Lanelet.all_lanelets_by_merging_successors_from_lanelet": {
+        "lanelet": "any lanelet of the network, also one on a cycle of successor references (bucket merge:route-closes-cycle:merge_succ)",
+        "network": "the scenario's network", "max_length": "25 / 45 / 60 / 150 (a ring of 2..3 lanelets of length 20 closes within all but the first)"},
+    "Lanelet.all_lanelets_by_merging_predecessors_from_lanelet": {
+        "lanelet": "any lanelet of the network, also one on a cycle (bucket merge:route-closes-cycle:merge_pred)",
+        "network": "the scenario's network", "max_length": "25 / 45 / 60 / 150"},
 }
 
 
